@@ -2,7 +2,7 @@
    Theorems only (proofs in Acme.C04.Proofs_Xxx). "No mutating call panics" is what the
    correspondence run exhibits for the Go code (every call runs inside recover()); the model is
    total by construction. *)
-From Acme.C04 Require Import Spec Proofs_Noop Proofs_Pre Proofs_Refs Proofs_RegCor.
+From Acme.C04 Require Import Spec Proofs_Noop Proofs_Pre Proofs_Refs Proofs_RegCor SpecSig Proofs_RegPre.
 
 Theorem error_is_noop : forall s o, Inv s -> is_err (snd (step s o)) = true -> fst (step s o) = s.
 Proof. exact Proofs_Noop.error_is_noop. Qed.
@@ -30,3 +30,26 @@ Print Assumptions error_is_noop3.
 Theorem error_is_noop2 : forall s o, Inv2 s -> is_err (snd (step2 s o)) = true -> fst (step2 s o) = s.
 Proof. exact Proofs_RegCor.error_is_noop2. Qed.
 Print Assumptions error_is_noop2.
+
+(* the documented preconditions of layers 3 and 2 ([pre3] / [viol3] / [doc_cause3], [pre2] / [viol2] /
+   [doc_cause2] of Acme.C04.SpecSig) are written on the contents: the signals reachable from the
+   payload of a message ([InMessage]), the signals a multiplexer holds, the assignments of an entity;
+   geometry and attribute value checks are oracle arguments of the operations *)
+Theorem refused_iff_pre3 : forall s o, Inv3 s -> (is_err (snd (step3 s o)) = true <-> ~ pre3 s o).
+Proof. exact Proofs_RegPre.refused_iff_pre3. Qed.
+Print Assumptions refused_iff_pre3.
+
+Theorem cause_spec3 :
+  forall s o cs, Inv3 s -> snd (step3 s o) = Err cs -> cs <> nil /\ forall cw, In cw cs -> doc_cause3 s o cw.
+Proof. exact Proofs_RegPre.cause_spec3. Qed.
+Print Assumptions cause_spec3.
+
+(* the whole alphabet ([step2]: all 57 constructors / mutators, inv2_step_covers_all in C04.v) *)
+Theorem refused_iff_pre2 : forall s o, Inv2 s -> (is_err (snd (step2 s o)) = true <-> ~ pre2 s o).
+Proof. exact Proofs_RegPre.refused_iff_pre2. Qed.
+Print Assumptions refused_iff_pre2.
+
+Theorem cause_spec2 :
+  forall s o cs, Inv2 s -> snd (step2 s o) = Err cs -> cs <> nil /\ forall cw, In cw cs -> doc_cause2 s o cw.
+Proof. exact Proofs_RegPre.cause_spec2. Qed.
+Print Assumptions cause_spec2.
